@@ -37,6 +37,7 @@ def _run_one(job):
     from pyvc.spec import run_lemma, run_unit
 
     mod = importlib.import_module(modname)
+    _fill_known_contracts()
     if kind == "unit":
         spec = mod.UNITS[idx]
         res = run_unit(spec, timeout_s=timeout_s, want_smt2=want_smt2)
@@ -44,6 +45,26 @@ def _run_one(job):
         res = run_lemma(mod.LEMMAS[idx], timeout_s=timeout_s, want_smt2=want_smt2)
     d = asdict(res)
     return d
+
+
+def _fill_known_contracts():
+    """Names of all repository functions some contract is written for (any property): such a function must be called
+    through its contract; a function nobody wrote a contract for (e.g. a new helper) is inlined instead."""
+    from pyvc import interp
+
+    if interp.KNOWN_CONTRACTS:
+        return
+    names = set()
+    for k in range(1, 21):
+        try:
+            m = importlib.import_module(f"props.C{k:02d}")
+        except Exception:  # noqa: BLE001
+            continue
+        for u in getattr(m, "UNITS", []):
+            names.add(u.func)
+            names.update(getattr(u, "callees", {}) or {})
+            names.update(getattr(u, "inline", ()) or ())
+    interp.KNOWN_CONTRACTS.update(names)
 
 
 def belongs(label: str, pid: str) -> bool:
@@ -100,6 +121,8 @@ def main(argv=None):
         print(f"CHECKER-ERROR property={pid} cannot load {modname}: {type(e).__name__}: {e}")
         return 3
     timeout_s = 20.0 if tier == "quick" else 120.0
+    if os.environ.get("PYVC_TIMEOUT_S"):  # the self-test only needs ONE refuted obligation: shorter budget per obligation
+        timeout_s = float(os.environ["PYVC_TIMEOUT_S"])
     want_smt2 = True if tier == "thorough" else "samples"
     jobs = [("unit", modname, i, timeout_s, want_smt2) for i in range(len(getattr(mod, "UNITS", [])))]
     jobs += [("lemma", modname, i, timeout_s, want_smt2) for i in range(len(getattr(mod, "LEMMAS", [])))]
@@ -359,11 +382,11 @@ def main(argv=None):
         print(f"  UNDECIDED {u['unit']}: {u['label']} ({u.get('reason', '')})")
     for line in lines:
         print(line)
-    if errors:
-        for e in errors:
-            print(f"CHECKER-ERROR property={pid} {e}")
-        return 3
-    return 1 if violations else 0
+    for e in errors:
+        print(f"CHECKER-ERROR property={pid} {e}")
+    if violations:
+        return 1  # a violation found (and reported above) stands even if another part of the check could not run
+    return 3 if errors else 0
 
 
 def replay(pid, path):
